@@ -13,10 +13,43 @@ NA = {
 }
 
 # property -> (category, technique, level text, level note, design ref, built?)
+SIM = "deterministic simulation with fault injection: "
+TB = "Trusts the replica's field/group arithmetic and pairing value (C01, C02, C04, C05, C06: not applicable here) as the base of the reference models, which use reference paths (double-and-add, generic square-and-multiply), never the fast paths under judgement. Seeded sampling: a clean batch is evidence, not proof. x86-64 only (AArch64/ARMv6-M back ends not executed)."
 CLAIMED = {
- "C09": ("fault_enumeration", "deterministic simulation: Byzantine store between encoder and validating/non-validating decoders; enumerated single-fault set + seeded multi-fault sampling; independent wire-format model as oracle",
-         "Every named malformation of a point encoding (flag manipulation, non-reduced coordinate, off-curve, wrong subgroup, x without y, malformed identity, wrong form, substituted element) and a flip in every byte is delivered to both decoders for identity, generator and multiples in both groups and both forms; validating decode must accept exactly the byte strings the independent format model calls canonical, and return the point the model parses.",
-         "Trusts the replica's field/group arithmetic (curve equation, subgroup test by double-and-add) as the base of the model; the format facts (flag bits, coordinate order, ordering on Montgomery representatives) are written down independently in sim/wire.hpp.", "5/C09", True),
+ "C03": ("exploration", SIM + "five builds of the library loaded side by side as replicas and driven in lock-step (register machine over the primitives with boundary pair constructors; whole scheme histories with one random stream); run-time dispatch pointers flipped at seeded yield points inside operations; event logs must be bit-identical",
+         "Every primitive op and every scheme history is applied with identical inputs to x86-64 asm with BMI2/ADX dispatch, with baseline dispatch, the static -mbmi2 build, portable 64-bit-word and portable 32-bit-word C++; all written registers, carry/borrow flags, marshalled bytes and random-stream consumption are compared. 4 of the 6 configurations the property names are executed.",
+         "Agreement of all replicas on a wrong value is C02's business and is not detected. AArch64 and ARMv6-M assembly cannot run in this sandbox.", "5/C03", True),
+ "C07": ("exploration", SIM + "target-group exponentiation driven by the simulator-owned random stream under stream faults (rejection storms, digits at |x|-1 and |x|, tuples recombining to r-1, r, r+1), judged by M-sample and by generic exponentiation; boundary exponents",
+         "Claimed for the clause that names the byte stream: gt_multiply_random / random_gt must return the exponent M-sample derives from the recorded request sequence and base^y by two independent paths; fixed-exponent clauses are checked on stream-derived and listed boundary exponents (pure-function part, said so in DESIGN.md).", TB, "5/C07", True),
+ "C08": ("exploration", SIM + "histories over long-lived pair-record arrays that are never re-initialised (slices, re-pointing, re-preparing, identities, shared prepared points), product compared with the product of separately computed single pairings",
+         "Claimed for the state the property's anchors point at: the per-pair running point and coefficient cursor live in caller-owned records reused across calls. Each product over a history-produced list shape must equal the product of single pairings; prepared equals plain; identities contribute the neutral element.", TB, "5/C08", True),
+ "C09": ("fault_enumeration", SIM + "Byzantine store between encoder and validating/non-validating decoders; enumerated single-fault set plus seeded multi-fault sampling; independent wire-format model as oracle",
+         "Every named malformation of a point encoding (flag manipulation, non-reduced coordinate, flag bits in later coordinates, off-curve, wrong subgroup, x without y, malformed identity, wrong form, substituted element) and a flip in every byte (every bit in thorough) is delivered to both decoders for identity, generator and multiples in both groups and both forms; validating decode must accept exactly the byte strings the independent format model calls canonical and return the point the model parses.",
+         "Trusts the replica's curve equation / subgroup test by double-and-add as the base of the model; the format facts (flag bits, coordinate order, ordering on Montgomery representatives) are written down independently in sim/wire.hpp.", "5/C09", True),
+ "C10": ("exploration", SIM + "every sampler and every scheme operation reads a simulator-owned random stream that serves fair bytes, boundary values and rejection storms and records each request; M-sample re-derives value, number and sizes of requests; hash-to-curve re-walked candidate by candidate; bounded-liveness watchdog on the rejection loops; platform independence by replica comparison",
+         "Samplers must return the first accepted candidate of the stream (so an off-by-one acceptance test shows as one extra/missing request), results below the modulus, generators non-identity in the subgroup and equal to cofactor times the selected point; every sampler returns within scripted+256 requests; hash clauses (pure) are checked on boundary and random inputs and across replicas.", TB, "5/C10", True),
+ "C11": ("exploration", SIM + "seeded delegation histories (keygen, qualify, non-delegable variants, adjust, resample, marshalling restarts) over slot patterns {free, fixed, hidden}^l on seed-chosen replicas and views; M-wkd tracks the exact randomness of every key from the controlled stream and predicts every key component",
+         "After every key-producing step the key must equal the model key component for component (a0, a1, bsig, ascending free-slot list with h_i^rho), satisfy the pairing equation, and it and the master key must decrypt a fresh ciphertext for exactly the accumulated pattern; attribute lists are generated from the parent's pattern so that they are exactly the documented-permitted ones.", TB, "5/C11-C14", True),
+ "C12": ("exploration", SIM + "the same histories with negative oracles: every (key, ciphertext) pair with different exponent vectors must not decrypt; attack ops try to fill hidden slots through qualify / non-delegable qualify / adjust / resample-then-qualify; ciphertext components replaced by other valid elements",
+         "Negative guarantees judged over history-produced pairs; a false alarm would need a 2^-255 coincidence. Ciphertexts whose encryption randomness is 0 (reachable only through a scripted stream) are exempt: they open for everybody by construction of the scheme.", TB, "5/C11-C14", True),
+ "C13": ("exploration", SIM + "signing histories over delegated keys with the signature predicted by M-wkd from the stream; single-field perturbations of message, list and signature; incompatible signers; marshalling hop",
+         "Signatures must equal the model signature (a0 = g2^alpha (hsig^m prod)^(rho+s), a1 = g^(rho+s)) and verify; verification must fail for m+1, any list change, an incompatible signer pattern (changed fixed value, hidden slot set) and either component replaced; m and m+r are the same message (scheme over Z_r).", TB, "5/C11-C14", True),
+ "C14": ("exploration", SIM + "chains of in-place adjustments of persistent precomputed products and non-delegable keys compared with recomputation from scratch; precomputed and direct encrypt/sign run on the same random stream must be byte-identical; verify and verify_precomputed must agree on every (valid or tampered) signature",
+         "adjust_precomputed(from->to) = precompute(to) and adjust_nondelegable = nondelegable_qualifykey(parent,to) component for component, over insertions, deletions, value changes, other representatives mod r, ids >= r, hidden entries, empty lists and chains.", TB, "5/C11-C14", True),
+ "C15": ("fault_enumeration", SIM + "objects cross a simulated store as marshalled bytes and are reloaded through the Go wrapper's allocate-then-unmarshal protocol; enumeration of every embedded element x every invalid-encoding kind, truncations, extensions; M-wire layout and length formulas written down independently; run under ASan+UBSan",
+         "Marshal writes exactly the reported length, lengths equal the independent format formula and its inverse, bytes equal the independent layout, unmarshal(marshal(x)) is component-wise x (recomputed pairing for compressed parameters) and re-marshals identically; validating unmarshal rejects a buffer iff some embedded G1/G2 element is not a canonical valid encoding (GT bytes, the flag byte and slot indices have no validating form and are not required to be rejected).",
+         "Go bindings are represented by a C++ re-implementation of lang/go/*/marshal.go (no Go toolchain). " + TB, "5/C15,C17", True),
+ "C16": ("exploration", SIM + "PKG, sender and receiver as simulated parties; the caller's hash and random callbacks are simulator-owned stubs that record every byte; master scalar, keys and ciphertexts cross the store with bit flips; negative variants (other identity, other master, substituted or damaged ciphertext)",
+         "Sender and receiver must feed the hash stub identical bytes equal to compressed(Q)||compressed(rP)||GT-bytes(e(Q,[r][s]P)) with r from M-sample; secret key = [s]Q by the reference path also for unreduced master scalars; requested length forwarded unchanged; negative variants must change the hashed bytes.", TB, "5/C16", True),
+ "C17": ("fault_enumeration", SIM + "every delivered buffer (valid, truncated to each length, extended, bit-flipped, element-substituted, random junk 1..4096 bytes) x {compressed, uncompressed} x {validating, not} goes to length discovery and unmarshal in exact-size heap blocks under ASan+UBSan(no-recover, incl. alignment); all scenario histories of the other properties also run in that flavour; dead workers are classified by their sanitizer report",
+         "No sanitizer report, and every accepted buffer yields an object that marshals again into a buffer of its own reported length; slot arrays are sized exactly as the Go wrapper sizes them.",
+         "Sanitizers see only what executes; uninitialised-value use is not covered (MSan unusable with the uninstrumented libstdc++). " + TB, "5/C15,C17", True),
+ "C19": ("other", "ABI/constant tables evaluated inside every replica (static facts, not simulation) + " + SIM + "view refinement: every history executed through the C API and through the C++ API on the same replica with the same stream, event logs must be identical",
+         "Layout, alignment, member offsets, coefficient count and exported constants compared in 64- and 32-bit-word, asm and portable replicas; every C function the adapter reaches returns what the C++ operation returns on all arguments the scenarios generate (C API symbols the adapter does not reach are listed in the evidence).",
+         "The ABI table is a compile-time fact reported at run time; AArch64/ARMv6-M not covered.", "5/C19", True),
+ "C20": ("exploration", SIM + "2-6 real caller threads under a serialising seeded scheduler preempting at a guarded yield hook inside every field multiplication and at the random/hash callbacks; M-solo refinement; mprotect write trap on the replicas' writable image and on shared inputs; libc allocation trap; link-surface audit of the static library built the shipped way (static, not simulation)",
+         "Concurrent execution on shared read-only inputs and distinct outputs must give exactly the outputs of running each script alone; any write to library static storage or to a shared input after load is a deterministic SIGSEGV; the archive's undefined symbols must be memory primitives and compiler arithmetic helpers in five build configurations (clang/gcc x asm/portable x 64/32-bit words).",
+         "Data races that leave results intact and touch only caller memory the harness did not mark shared are invisible (a serialising scheduler gives TSan nothing to see). Writable-but-never-written static storage is reported in the evidence, not as a violation.", "5/C20", True),
 }
 
 def main():
